@@ -23,14 +23,18 @@ TranslateOk(e) == ShapeEq(Shape(e.rust), Got(e))
 
 ZodVsPlainOk(e) == ZodMatchesPlain(ShapeOfZod(e.zod), ShapeOfTs(e.ts))
 
+\* the rendering of T[N] under the mapping denotes what the tool's rendering of T[M] denotes
+GotSubst(e) == IF e.lang = "ts" THEN ShapeOfTs(e.pts) ELSE ShapeOfZod(e.pzod)
 MappedOk(e) ==
-    /\ TranslateOk(e)
+    /\ Got(e) = GotSubst(e)
     /\ AsSet(e.declared) \cap MappedNames(e.rust) = {}
     /\ AsSet(e.referenced) \cap MappedNames(e.rust) = {}
 
 \* coarse signature of what was observed instead (for known-finding matching)
 GotKind(e) ==
     IF e.event = "ZodVsPlain" THEN ShapeOfZod(e.zod).k
+    ELSE IF e.event \in {"SameDecl", "DeclNames", "Keys"} THEN "differs"
+    ELSE IF e.event = "Mapped" THEN (IF Got(e) = GotSubst(e) THEN "same" ELSE Got(e).k)
     ELSE LET g == Got(e) w == Shape(e.rust) IN
          IF g.k = "other" THEN g.why ELSE IF g.k = w.k THEN "deep" ELSE g.k
 
@@ -38,6 +42,9 @@ Judge(e) ==
     CASE e.event = "Translate"  -> TranslateOk(e)
       [] e.event = "ZodVsPlain" -> ZodVsPlainOk(e)
       [] e.event = "Mapped"     -> MappedOk(e)
+      [] e.event = "SameDecl"   -> e.a = e.b
+      [] e.event = "DeclNames"  -> AsSet(e.none) = AsSet(e.zod)
+      [] e.event = "Keys"       -> AsSet(e.none) = AsSet(e.zod)
       [] OTHER -> FALSE
 
 TraceInit == l = 1
